@@ -242,6 +242,7 @@ def panic_rewrites(fn, src_text):
 
 def build():
     U = Unit('SEMA', props=P)
+    U.tag_loops = True     # loop invariants state property-relevant facts about abstractions: a failing one is reported
     # ---- types (re-verified copy; the C20 lemmas stay in unit TYPES)
     U.raw('pub mod types {\nuse vstd::prelude::*;\n')
     types_unit.add(U, with_lemmas=False, arith_op=False)
@@ -408,8 +409,16 @@ pub assume_specification<T: Clone, EE: Clone> [<Result<T, EE> as Clone>::clone] 
         spec=NONGLOBAL + 'ensures grows(*old(context), *final(context)), r@.len() <= block.sp_statements().len(),')
     zov['block_expr_to_asg_type'].update(spec=NONGLOBAL + 'ensures grows(*old(context), *final(context)),')
     zov['block_or_stmt_to_asg_type'].update(spec=NONGLOBAL + 'ensures grows(*old(context), *final(context)),')
-    zov['bind_parameter_list'].update(ret='r', props=['C09', 'C07', 'C03'], loops={1: ITER('oq3_it1', '\n    oq3_v1@.len() + oq3_it1.rest().len() == param_list.sp_params().len(),')},
-        spec='ensures grows(*old(context), *final(context)), (r is Some) == (inparam_list is Some), r is Some ==> r->Some_0@.len() == inparam_list->Some_0.sp_params().len(),     //@C09:one-symbol-per-parameter')
+    zov['bind_parameter_list'].update(ret='r', props=['C09', 'C07', 'C03'], loops={1: ITER('oq3_it1', '''
+    oq3_v1@.len() + oq3_it1.rest().len() == param_list.sp_params().len(),
+    oq3_it1.rest() =~= param_list.sp_params().skip(oq3_v1@.len() as int),
+    context.trace().len() == old(context).trace().len() + oq3_v1@.len(),
+    forall|i: int| 0 <= i < oq3_v1@.len() ==> context.trace()[old(context).trace().len() + i] == context::Ev::Bind(param_list.sp_params()[i].sp_string(), *typ),''')},
+        spec='''ensures grows(*old(context), *final(context)), (r is Some) == (inparam_list is Some), r is Some ==> r->Some_0@.len() == inparam_list->Some_0.sp_params().len(),     //@C09:one-symbol-per-parameter
+    // every parameter is declared, in order, with exactly the given type, and nothing else happens to the symbol table
+    final(context).trace().len() == old(context).trace().len() + n_params(inparam_list),
+    inparam_list is Some ==> (forall|i: int| 0 <= i < n_params(inparam_list) ==>
+        final(context).trace()[old(context).trace().len() + i] == context::Ev::Bind(inparam_list->Some_0.sp_params()[i].sp_string(), *typ)),     //@C09:parameters-get-their-type''')
     zov['bind_typed_parameter_list'].update(ret='r', props=['C09', 'C07', 'C03'], loops={1: ITER('oq3_it1', '\n    oq3_v1@.len() + oq3_it1.rest().len() == param_list.sp_typed_params().len(),')},
         spec='ensures grows(*old(context), *final(context)), (r is Some) == (inparam_list is Some), r is Some ==> r->Some_0@.len() == inparam_list->Some_0.sp_typed_params().len(),     //@C09:one-symbol-per-parameter')
     zov['stmt_to_asg_stmt'].update(ret='r', props=P, loops={1: ITER_NB('oq3_it1')},
@@ -431,6 +440,29 @@ pub assume_specification<T: Clone, EE: Clone> [<Result<T, EE> as Clone>::clone] 
         ('let params = bind_typed_parameter_list(', 'before', A_('fresh_scope', 'subroutine-parameters-in-own-scope')),
         ('let return_type = match', 'before', A_('same_scopes', 'return-type-analysed-outside-subroutine-scope', 'C09,C07')),
         ('let def_name_symbol_id = context.new_binding(', 'before', A_('same_scopes', 'subroutine-name-bound-in-enclosing-scope-after-body')),
+        # ---- C09: the declared symbol carries exactly the declared type
+        ('Some(asg::GateDefinition::new(gate_name_symbol_id, params, qubits, block).to_stmt())', 'before', '''proof {
+    let b = context.trace().last();
+    assert(last_bind(*context, gate.sp_name()->Some_0.sp_string()) && b->Bind_1 is Gate
+           && b->Bind_1->Gate_0 == n_params(gate.sp_angle_params()) && b->Bind_1->Gate_1 == n_params(gate.sp_qubit_params()));     //@C09:gate-arity-as-declared
+}'''),
+        ('Some(\n                asg::DefStmt::new(def_name_symbol_id, params.unwrap(), block, return_type)', 'before', '''proof {
+    let b = context.trace().last();
+    let st = match def_stmt.sp_return_signature() { Some(rs) => rs.sp_scalar_type(), None => None };
+    assert(last_bind(*context, def_stmt.sp_name()->Some_0.sp_string()) && b->Bind_1 is SubroutineDef
+           && b->Bind_1->SubroutineDef_0.num_params == def_stmt.sp_typed_param_list()->Some_0.sp_typed_params().len()
+           && (st is None ==> *b->Bind_1->SubroutineDef_0.return_type == Type::Void)
+           && (st is Some ==> *b->Bind_1->SubroutineDef_0.return_type == type_of(st->Some_0.sp_kind(), written_width(*b->Bind_1->SubroutineDef_0.return_type), true)));     //@C09:subroutine-signature-as-declared
+}'''),
+        ('Some(asg::DeclareQuantum::new(symbol_id).to_stmt())', 'before', '''proof {
+    let b = context.trace().last();
+    let d = q_decl.sp_qubit_type()->Some_0.sp_designator();
+    let dd: Option<&synast::Designator> = match d { Some(x) => Some(&x), None => None };
+    assert(last_bind(*context, q_decl.sp_name()->Some_0.sp_string())
+           && (d is None ==> b->Bind_1 == Type::Qubit)
+           && ((des_int_literal(dd) is Some && !co_width_truncation(des_int_literal(dd)->Some_0))
+                   ==> b->Bind_1 == Type::QubitArray(ArrayDims::D1(des_int_literal(dd)->Some_0 as u32 as usize))));     //@C09:qubit-register-length-as-declared
+}'''),
     ]
     D3_OLD = """
         .arg_list()
